@@ -96,8 +96,8 @@ func init() {
 
 			a.runtime.blocks = t.processedBlocks
 			root := t.Root
-			if t.extends != nil {
-				root = t.extends.Root
+			for e := t.extends; e != nil; e = e.extends {
+				root = e.Root
 			}
 
 			if a.NumOfArguments() > 1 {
@@ -126,8 +126,8 @@ func init() {
 
 			a.runtime.blocks = t.processedBlocks
 			root := t.Root
-			if t.extends != nil {
-				root = t.extends.Root
+			for e := t.extends; e != nil; e = e.extends {
+				root = e.Root
 			}
 
 			if a.NumOfArguments() > 1 {
